@@ -131,7 +131,7 @@ Lemma wfw_commit_key s k l cv : wfw s -> wfw (fst (commit_key s k l cv)).
 Proof.
   intro H. unfold commit_key. destruct (cv <? l_min_commit l); [exact H|].
   destruct (get_write_by_start_ts s k (l_ts l)) as [[w ct]|].
-  - destruct (op_eqb (w_kind w) OpRollback); [exact H|]. destruct (ct =? cv); exact H.
+  - destruct (op_eqb (w_kind w) OpRollback); exact H.
   - cbn [fst]. unfold wfw. cbn [del_lock s_write]. now apply wfw_put_write.
 Qed.
 
@@ -176,7 +176,12 @@ Proof.
         destruct (commit_key s0 k l commit_version) as [s1 [e|]]; [exact H1 | now apply IH]. }
     specialize (G keys s 0 H). destruct (resolve_lock current s keys start commit_version 0) as [[s1 n] e]. exact G.
   - unfold check_txn_status. destruct (get_lock s primary) as [l|].
-    + destruct (negb (l_ts l =? lock_ts)); [exact H|]. destruct (is_lock_expired l current_ts).
+    + destruct (negb (l_ts l =? lock_ts)); [exact H|].
+      destruct (match get_write_by_start_ts s primary lock_ts with
+                | Some (w, ct) => if op_eqb (w_kind w) OpRollback then None else Some ct
+                | None => None
+                end); [exact H|].
+      destruct (is_lock_expired l current_ts).
       * pose proof (wfw_rollback_key current s primary lock_ts H) as H1.
         destruct (rollback_key current s primary lock_ts) as [s1 [e|]]; exact H1.
       * destruct ((0 <? caller_start) && (l_min_commit l <? wrap64 (caller_start + 1))); exact H.
@@ -268,6 +273,10 @@ Proof.
     specialize (G keys a 0). destruct (l_resolve a keys start commit_version 0) as [[a1 n] e]. exact G.
   - unfold l_check. destruct (ks_lock (ls_at a primary)) as [l|].
     + destruct (negb (l_ts (ll_rec l) =? lock_ts)); [apply LR0|].
+      destruct (match find_start (ks_recs (ls_at a primary)) lock_ts with
+                | Some r => if op_eqb (lr_kind r) OpRollback then None else Some r
+                | None => None
+                end); [eapply LR1; apply LR0|].
       destruct (lock_expired (ll_rec l) current_ts); [eapply LR1; apply LR0|].
       destruct ((0 <? caller_start) && (l_min_commit (ll_rec l) <? wrap64 (caller_start + 1)));
         [eapply LR1; apply LR0 | apply LR0].
